@@ -9,3 +9,5 @@ pub mod params;
 pub mod refs;
 pub mod bcn_ref;
 pub mod memfile;
+pub mod vfmt;
+pub mod memfs;
